@@ -58,6 +58,21 @@ Proof. exact vp9_nonflex_head. Qed.
 Print Assumptions C12_partition_head_nonflexible.
 
 
+(* ---- end to end, over histories: any sequence of frames the mode can carry (frame_fits: non-empty;
+   in non-flexible mode with a parsable uncompressed header) through one payloader, every emitted
+   payload handed in order to one reused VP9Packet (vp9_run), gives back every frame as the
+   concatenation of the decoded payloads, with B on the first and E on the last packet of a frame
+   only, I set, and the picture id of the k-th frame equal to (first id + k) mod 2^15 in every one of
+   its packets; in non-flexible mode P = non-key frame on every packet, and V with one spatial layer
+   of the frame header's width and height on the first packet of a key frame and nowhere else
+   (frames_ok9 / frame_ok9) ---- *)
+From RTP Require Import Proofs.VpHistory.
+Theorem C12_history : forall frames st init mtu prev, 0 <= v9_pid st < 32768 -> 0 <= init ->
+  (if v9_flexible st then 3 else 11) < mtu -> Forall (frame_fits (v9_flexible st)) frames ->
+  exists r, vp9_run st init mtu prev frames = Ok r /\ frames_ok9 (v9_flexible st) (start_pid st init) frames r.
+Proof. exact vp9_history. Qed.
+Print Assumptions C12_history.
+
 Theorem C12_picture_id : forall st init mtu p st' fs, 0 <= v9_pid st < 32768 ->
   vp9_payload st init mtu p = Ok (st', fs) ->
   let pid := if v9_initialized st then v9_pid st else init mod 32768 in
@@ -128,4 +143,18 @@ Proof.
   split; [repeat constructor; lia|]. split; [unfold wf_shdr; cbn; lia|].
   split; [vm_compute; repeat split; congruence|].
   split; [eexists; split; [vm_compute; reflexivity|split; reflexivity]|eexists; split; reflexivity].
+Qed.
+
+(* C12_history is not vacuous: two key frames (320x240, profile 0) in non-flexible mode at MTU 20,
+   first picture id 32767 (from InitialPictureIDFn), into a receiver that held something else *)
+Example C12_history_nonvacuous :
+  frame_fits false ex_frame /\
+  exists r, vp9_run (mkVp9Pay false 0 false) 32767 20 (flex_packet 5 true true [1]) [ex_frame; ex_frame] = Ok r /\
+    map (map p9_picture_id) r = [[32767; 32767]; [0; 0]] /\
+    map (map p9_b) r = [[true; false]; [true; false]] /\ map (map p9_e) r = [[false; true]; [false; true]] /\
+    map (map p9_v) r = [[true; false]; [true; false]] /\ map (map p9_width) r = [[[320]; []]; [[320]; []]] /\
+    map (concat (A := Z)) (map (map p9_payload) r) = [ex_frame; ex_frame].
+Proof.
+  split; [split; [discriminate|intros _; eexists; vm_compute; reflexivity]|].
+  eexists. split; [vm_compute; reflexivity|repeat split].
 Qed.
